@@ -26,6 +26,7 @@ const (
 	fReplace = "replace" // passes a NEW *Request/*Response pair carrying a marker
 	fAttr    = "attr"    // sets a request attribute
 	fMW      = "mw"      // an http middleware that swaps *http.Request (WithContext) and wraps the writer
+	fCORS    = "cors"    // the library's own CORS filter (requests carry an allowed Origin and are never preflights: it passes control on once)
 )
 
 var fBehaviours = []string{fPass, fStop, fReplace, fAttr, fMW}
@@ -116,6 +117,8 @@ func c06Filter(lg *c06Log, id, behaviour string) restful.FilterFunction {
 		case fAttr:
 			req.SetAttribute("attr-"+id, id)
 			chain.ProcessFilter(req, resp)
+		case fCORS:
+			restful.CrossOriginResourceSharing{AllowedDomains: []string{corsE1}, AllowedMethods: []string{"GET", "POST", "OPTIONS"}, CookiesAllowed: true}.Filter(req, resp, chain)
 		default:
 			chain.ProcessFilter(req, resp)
 		}
@@ -175,6 +178,7 @@ func c06Build(cfg c06Cfg) *c06World {
 	for i, b := range cfg.S {
 		ws1.Filter(c06Filter(lg, fmt.Sprintf("s%d", i), b))
 	}
+	ws1.Route(ws1.OPTIONS("/r").To(hnd("one-options")))
 	rb := ws1.GET("/r").To(hnd("one"))
 	for i, b := range cfg.R {
 		rb.Filter(c06Filter(lg, fmt.Sprintf("r%d", i), b))
@@ -194,11 +198,13 @@ func c06Build(cfg c06Cfg) *c06World {
 }
 
 // request kinds
-var c06Kinds = []string{"one", "two", "404", "405", "plain", "boom"}
+var c06Kinds = []string{"one", "two", "404", "405", "plain", "boom", "options"}
 
 func c06Req(kind, rid string) h.Req {
-	q := h.Req{Method: "GET", Hdr: [][2]string{{"X-Req", rid}}}
+	q := h.Req{Method: "GET", Hdr: [][2]string{{"X-Req", rid}, {"Origin", corsE1}}}
 	switch kind {
+	case "options": // an OPTIONS route of the application, requested with an Origin but not as a preflight
+		q.Segs, q.Method = []string{"one", "r"}, "OPTIONS"
 	case "one":
 		q.Segs = []string{"one", "r"}
 	case "boom": // route one, but the handler panics (recovered): the filters never see their exits
@@ -246,6 +252,11 @@ func c06Model(cfg c06Cfg, kind string) []string {
 			chain = append(chain, f{fmt.Sprintf("r%d", i), b})
 		}
 		target = "handler one"
+	case "options":
+		for i, b := range cfg.S {
+			chain = append(chain, f{fmt.Sprintf("s%d", i), b})
+		}
+		target = "handler one-options"
 	case "two":
 		chain = append(chain, f{"x0", fAttr}, f{"y0", fPass})
 		target = "handler two"
@@ -402,6 +413,11 @@ func checkC06(run *h.Run) {
 		cfgs = append(cfgs, c06Cfgs(3, 1, 1, false)...)
 		cfgs = append(cfgs, c06Cfgs(2, 2, 2, true)...)
 	}
+	// the library's CORS filter at each level and next to other behaviours
+	for _, c := range []c06Cfg{{C: []string{fCORS}}, {C: []string{fPass, fCORS}}, {C: []string{fCORS, fAttr}}, {C: []string{fCORS, fStop}}, {C: []string{fMW, fCORS}}, {C: []string{fCORS, fReplace}},
+		{S: []string{fCORS}}, {R: []string{fCORS}}, {C: []string{fCORS}, S: []string{fAttr}, R: []string{fPass}}, {C: []string{fCORS}, JSR: true}} {
+		cfgs = append(cfgs, c)
+	}
 	// an application-provided RouteSelector (all request kinds, plus the one it fails itself)
 	for _, c := range c06Cfgs(2, 1, 1, false) {
 		c.Custom = true
@@ -490,7 +506,7 @@ func checkC06(run *h.Run) {
 	run.Cov["evaluations"] = e1cases + seqTrans
 	run.Cov["distinct_nontrivial"] = e1cases + seqStates
 	run.Cov["exhaustive"] = true
-	run.Cov["rule"] = fmt.Sprintf("E1: every assignment of behaviours {pass, stop, replace pair, set attribute, http middleware} to (n_c, n_s, n_r) in {0,1,2}^3 filters (thorough also n_c = 3 and RouterJSR311) x request kinds {route one, route two of another service, 404, 405, HandleWithFilter pattern, route one with a handler that panics (recovered)}, and the (n_c<=2, n_s<=1, n_r<=1) configurations again behind an application-provided RouteSelector with the extra kind 'selector fails with a plain error'; the per-request event log (entries with the view each filter/handler has of pair, attributes, context, writer; handler; exits) must equal the ten-line model's. E2: every sequence of <= %d requests on one container for %d configurations, last request judged the same way. E3 (instrumented): concurrent requests, all schedules within the preemption bound with yields at every filter entry/exit and handler, happens-before race detection. Every case is non-trivial.", depth, len(seqCfgs))
+	run.Cov["rule"] = fmt.Sprintf("E1: every assignment of behaviours {pass, stop, replace pair, set attribute, http middleware} to (n_c, n_s, n_r) in {0,1,2}^3 filters (thorough also n_c = 3 and RouterJSR311) x request kinds {route one, route two of another service, 404, 405, HandleWithFilter pattern, route one with a handler that panics (recovered), an OPTIONS route requested with an Origin}, ten configurations with the library's own CORS filter at each level and next to the other behaviours, and the (n_c<=2, n_s<=1, n_r<=1) configurations again behind an application-provided RouteSelector with the extra kind 'selector fails with a plain error'; the per-request event log (entries with the view each filter/handler has of pair, attributes, context, writer; handler; exits) must equal the ten-line model's. E2: every sequence of <= %d requests on one container for %d configurations, last request judged the same way. E3 (instrumented): concurrent requests, all schedules within the preemption bound with yields at every filter entry/exit and handler, happens-before race detection. Every case is non-trivial.", depth, len(seqCfgs))
 	run.Assume = []string{"model c06Model: registration order container, service, route; first stop ends the chain; views follow the nearest upstream replace/attr/middleware"}
 	if f := e3Part["C06"]; f != nil {
 		f(run)
